@@ -4,6 +4,7 @@ import itertools
 
 import numpy as np
 
+from . import argforms_a as af
 from . import qc
 from .common import bits, f2b, unbits
 from .qc import torch
@@ -35,6 +36,11 @@ RULE = ("case = (state kind, n, h[, a], parameters = scale*N(0,1) with all biase
         "and with central finite differences of an independently written NLL (Born rule through the dense Kronecker product); the model's rotated "
         "amplitude / probability compared with the same dense formula; permutation/split invariance; 1-D call form with the basis as str, "
         "list and char-array row; bases=None on the complex / mixed state; pi_grad on both branches of `expand`; "
+        "argument forms (round 5): every integer / boolean option of a public call is drawn per case from a seeded stream (`aseed`; Python int, numpy "
+        "integer scalars, 0-d numpy / torch integers; bool singleton, 0/1, numpy bools, 0-d bool arrays / tensors; keyword and positional): constructor "
+        "sizes and `gpu` / `zero_weights`, `reduce` of effective_energy_gradient (both values), `eta` / `expand` of gamma_grad, `phase` / `expand` of "
+        "pi_grad, `k` of compute_batch_gradients (k in 0..3), `epochs` / `pos_batch_size` / `neg_batch_size` / `k` of fit (any positional prefix of the "
+        "documented order); the model is told the VALUE; "
         "non-trivial iff the dataset has >= 2 distinct bases with a non-Z letter (complex/mixed) or >= 2 distinct rows (positive); distinct by hash")
 EPS = 1e-8
 TH = {"pos": "C03_exact_gradient_positive(_flat)", "cplx": "C03_exact_gradient_complex(_flat) / C03_nll_is_born_complex",
@@ -176,9 +182,133 @@ def cmp_vec(ctx, name, impl, model, case, sig, th, scale):
     ctx.point(name, "property", impl, model, case, scale=scale, rtol=5e-8, atol=1e-10, sig=sig, theorem=th)
 
 
+# ------------------------------------------------------------------ argument forms (round 5): calls with the options as the case's objects
+# `A` is the case's af.Args stream; with Args(None) every helper makes exactly the call the harness made before (plain value, by keyword).
+TH_CTOR = "C03_exact_gradient_* (stated for the architecture num_visible x num_hidden [x num_aux] the caller asked for)"
+TH_EEG = {"pos": "C03_energy_grad / C03_batch_is_sum_positive", "cplx": "C03_energy_grad / C03_batch_is_sum_complex", "dm": "C03_energy_grad_prbm / C03_batch_is_sum_density"}
+
+
+def eeg_form(net, S, A, flag):
+    """net.effective_energy_gradient(S, reduce=<object denoting `flag`>), keyword or positional; -> (tensor, descriptor)"""
+    o, d = A.b_desc(flag)
+    return (net.effective_energy_gradient(S, o) if d["pos"] else net.effective_energy_gradient(S, reduce=o)), d
+
+
+def gamma_grad_form(net, A, v, vp, eta, expand):
+    """net.gamma_grad(v, vp, eta=<object denoting +1/-1>, expand=<object>): all keyword / eta positional / both positional"""
+    e, (x, d) = A.i(eta), A.b_desc(expand)
+    if d["pos"]:
+        return net.gamma_grad(v, vp, e, x)
+    if A.coin():
+        return net.gamma_grad(v, vp, e, expand=x)
+    return net.gamma_grad(v, vp, eta=e, expand=x)
+
+
+def pi_grad_form(st, A, v, vp, phase, expand=None):
+    """st.pi_grad(v, vp, phase=<object>, expand=<object>) (expand=None: left at its default), keyword / positional"""
+    p, dp = A.b_desc(phase)
+    if expand is None:
+        return st.pi_grad(v, vp, p) if dp["pos"] else st.pi_grad(v, vp, phase=p)
+    x, dx = A.b_desc(expand)
+    if dp["pos"] and dx["pos"]:
+        return st.pi_grad(v, vp, p, x)
+    if dp["pos"]:
+        return st.pi_grad(v, vp, p, expand=x)
+    return st.pi_grad(v, vp, phase=p, expand=x)
+
+
+def _np(t):
+    return t.detach().numpy().copy() if hasattr(t, "detach") else np.asarray(t)
+
+
+def _same(x, y, scale, rtol=1e-10):
+    x, y = np.asarray(x), np.asarray(y)
+    return bool(x.shape == y.shape and np.allclose(x, y, rtol=rtol, atol=rtol * scale))
+
+
+def form_oracles(ctx, st, A, kind, case, S, B, nets, g, scale):
+    """oracles on the implementation alone (they also run in the failing-input search): the value of a public gradient method must be
+    the one the documentation gives for the VALUE of each option, whatever object denotes it"""
+    N = S.shape[0]
+    # --- effective_energy_gradient(reduce): true => the vector summed over the batch (what gradient() accumulates), false => one row per sample
+    for i, net in enumerate(nets):
+        det = {}
+        try:
+            P = int(parameters_to_vector(net.parameters()).numel())
+            (T, dT), (F_, dF) = eeg_form(net, S, A, True), eeg_form(net, S, A, False)
+            T, F_, T0 = _np(T), _np(F_), _np(net.effective_energy_gradient(S))
+            det = {"reduce=true given as": dT, "reduce=false given as": dF, "shapes": [list(T.shape), list(F_.shape)]}
+            ok = T.shape == (P,) and F_.shape == (N, P) and _same(T, F_.sum(0), scale) and _same(T, T0, scale)
+            if i == 0 and kind == "pos":
+                ok = ok and _same(T, g[0], scale)
+        except Exception as e:  # noqa: BLE001
+            ok, det = False, {**det, "exception": type(e).__name__, "message": str(e)[:200]}
+        ctx.oracle("effective_energy_gradient(S, reduce=<true object>) == column sums of effective_energy_gradient(S, reduce=<false object>) == default call",
+                   bool(ok), case, detail=det, sig=f"{kind}/eeg-reduce-forms", theorem=TH_EEG[kind])
+    # --- compute_batch_gradients(k, ...): the same call with k as a plain Python int and as the case's object, same torch random stream
+    if A.aseed is not None:
+        k = A.choice([0, 1, 2, 3])
+        ko, kd = A.i_desc(k)
+        neg = S.flip(0).clone()
+        det = {"k": kd}
+        try:
+            with torch.random.fork_rng():
+                torch.manual_seed(A.aseed)
+                ref = st.compute_batch_gradients(k, S, neg) if kind == "pos" else st.compute_batch_gradients(k, S, neg, B)
+            with torch.random.fork_rng():
+                torch.manual_seed(A.aseed)
+                got = st.compute_batch_gradients(ko, S, neg) if kind == "pos" else st.compute_batch_gradients(ko, S, neg, B)
+            ok = len(ref) == len(got) and all(_same(_np(x), _np(y), scale) for x, y in zip(got, ref))
+        except Exception as e:  # noqa: BLE001
+            ok, det = False, {**det, "exception": type(e).__name__, "message": str(e)[:200]}
+        ctx.count(f"compute_batch_gradients/k={k}")
+        ctx.oracle("compute_batch_gradients(k=<object>, ...) == compute_batch_gradients(k=<Python int>, ...) on the same random stream",
+                   bool(ok), case, detail=det, sig=f"{kind}/batch-gradients-k-forms", theorem=TH_SUM[kind] + " / C06_batch_grad (k = number of Gibbs steps)")
+    if kind != "dm":
+        return
+    # --- mixed state: the pieces of am_grads / ph_grads called with the options as objects
+    VP = S.roll(1, 0)
+    det = {}
+    try:
+        am_ref, ph_ref = _np(st.am_grads(S)), _np(st.ph_grads(S))
+        gp = _np(gamma_grad_form(st.rbm_am, A, S, S, +1, True))
+        pa = _np(pi_grad_form(st, A, S, S, False, True))
+        gm = _np(gamma_grad_form(st.rbm_ph, A, S, S, -1, True))
+        pp_ = _np(pi_grad_form(st, A, S, S, True, True))
+        det = {"given_as": A.used(), "shapes": [list(x.shape) for x in (am_ref, gp, pa, gm, pp_)]}
+        sc = max(1.0, float(np.max(np.abs(am_ref))), float(np.max(np.abs(ph_ref))))
+        ok = _same(gp + pa, am_ref, sc) and _same(np.stack([-gm[1], gm[0]]) + pp_, ph_ref, sc)
+    except Exception as e:  # noqa: BLE001
+        ok, det = False, {**det, "exception": type(e).__name__, "message": str(e)[:200]}
+    ctx.oracle("am_grads(v) == gamma_grad(v, v, eta=<+1>, expand=<true>) + pi_grad(v, v, phase=<false>, expand=<true>);  "
+               "ph_grads(v) == i gamma_grad(v, v, eta=<-1>, expand=<true>) + pi_grad(v, v, phase=<true>, expand=<true>)", bool(ok), case, detail=det,
+               sig="dm/grads-composition-forms", theorem="C03_sample_gradient_density (dmAmGrads / dmPhGrads = gammaGrad + piGrad)")
+    det = {}
+    try:
+        ok = True
+        for eta, net in ((+1, st.rbm_am), (-1, st.rbm_ph)):
+            full = _np(net.gamma_grad(S, VP, eta=eta, expand=True))
+            pair = _np(gamma_grad_form(net, A, S, VP, eta, False))
+            want = np.stack([full[:, i, i, :] for i in range(N)], axis=1)
+            ok = ok and _same(pair, want, scale)
+        for ph_flag in (False, True):
+            pair = _np(pi_grad_form(st, A, S, VP, ph_flag, False))
+            ok = ok and _same(pair, _np(st.pi_grad(S, VP, phase=ph_flag, expand=False)), scale)
+            if all(x == 0 for x in case["ph"]["d"]):  # the two branches agree iff the phase network's auxiliary bias is zero (C03_pi_grad_branches_agree)
+                full = _np(st.pi_grad(S, VP, phase=ph_flag, expand=True))
+                ok = ok and _same(pair, np.stack([full[:, i, i, :] for i in range(N)], axis=1), scale)
+        det = {"given_as": A.used()}
+    except Exception as e:  # noqa: BLE001
+        ok, det = False, {**det, "exception": type(e).__name__, "message": str(e)[:200]}
+    ctx.oracle("gamma_grad / pi_grad(v, v', ..., expand=<false object>) == the paired entries [i, i] (gamma_grad: of the expand=True tensor; pi_grad: "
+               "of the literal-False call, and of the expand=True tensor when the phase auxiliary bias is 0)", bool(ok), case, detail=det,
+               sig="dm/paired-flag-forms", theorem="C03_single_sample_density / C03_pi_grad_branches_agree")
+
+
 def one_case(ctx, case):
     kind, n, h, a = case["kind"], case["n"], case["h"], case.get("a", 0)
     ctx.current_case = case
+    A = af.Args(case.get("aseed"))
     am, ph, data = case["am"], case.get("ph"), [(list(s), b) for s, b in case["data"]]
     space = np.asarray(qc.all_states(n), dtype=float)
     space_t = torch.tensor(space, dtype=torch.double)
@@ -192,7 +322,14 @@ def one_case(ctx, case):
     ctx.count("regime=" + case.get("regime", "ordinary"))
     order = ORDER_RBM if kind != "dm" else ORDER_PRBM
     if kind == "pos":
-        st = qc.make_positive(n, h, am)
+        st = af.make_positive(A, n, h, am)
+    elif kind == "cplx":
+        st = af.make_complex(A, n, h, am, ph)
+    else:
+        st = af.make_density(A, n, h, a, am, ph)
+    if not af.check_sizes(ctx, st, (n, h, a) if kind == "dm" else (n, h), case, A, f"{kind}/ctor-sizes", TH_CTOR):
+        return
+    if kind == "pos":
         nets = [st.rbm_am]
         g = [t.numpy().copy() for t in st.gradient(S)]
         pp = [t.numpy().copy() for t in st.positive_phase_gradients(S)]
@@ -204,7 +341,6 @@ def one_case(ctx, case):
         fd = [fd_grad(f, am, order)]
         params = [am]
     elif kind == "cplx":
-        st = qc.make_complex(n, h, am, ph)
         nets = [st.rbm_am, st.rbm_ph]
         g = [t.numpy().copy() for t in st.gradient(S, B)]
         pp = [t.numpy().copy() for t in st.positive_phase_gradients(S, B)]
@@ -212,7 +348,6 @@ def one_case(ctx, case):
         fd = [] if case.get("no_fd") else [fd_grad(lambda p: nll_cplx(p, ph, data, space, D), am, order), fd_grad(lambda p: nll_cplx(am, p, data, space, D), ph, order)]
         params = [am, ph]
     else:
-        st = qc.make_density(n, h, a, am, ph)
         nets = [st.rbm_am, st.rbm_ph]
         g = [t.numpy().copy() for t in st.gradient(S, B)]
         pp = [t.numpy().copy() for t in st.positive_phase_gradients(S, B)]
@@ -298,6 +433,15 @@ def one_case(ctx, case):
                    sig=f"{kind}/bases-none-posphase", theorem=TH_SUM[kind])
     ctx.oracle("positive_phase == gradient / N", bool(all(np.allclose(x, y / len(data), rtol=1e-12, atol=1e-12 * scale) for x, y in zip(pp, g))), case,
                sig=f"{kind}/posphase", theorem=TH_SUM[kind])
+    # ---------------- argument forms of the public pieces (implementation only)
+    form_oracles(ctx, st, A, kind, case, S, B, nets, g, scale)
+    try:
+        _model_points(ctx, st, A, kind, case, n, h, a, am, ph, data, space, S, D, g, pp, ex, gn_impl, scale)
+    finally:
+        A.count_into(ctx)
+
+
+def _model_points(ctx, st, A, kind, case, n, h, a, am, ph, data, space, S, D, g, pp, ex, gn_impl, scale):
     # ---------------- model
     if ctx.driver is None:
         return
@@ -306,7 +450,7 @@ def one_case(ctx, case):
         cmp_vec(ctx, "gradient", g[0], unbits(m["gradient"]), case, "pos/gradient", TH["pos"], scale)
         cmp_vec(ctx, "positive_phase_gradients", pp[0], unbits(m["positive_phase"]), case, "pos/posphase", TH["pos"], scale)
         cmp_vec(ctx, "compute_exact_gradients", ex[0], unbits(m["exact"]), case, "pos/exact", TH["pos"], scale)
-        rows = st.rbm_am.effective_energy_gradient(S, reduce=False).numpy()
+        rows = eeg_form(st.rbm_am, S, A, False)[0].numpy()
         ctx.point("effective_energy_gradient(reduce=False)", "aux", rows.ravel(), np.concatenate([unbits(r) for r in m["per_row"]]), case, scale=scale)
     else:
         dict_enc = {L: [[[f2b(D[L][r][c].real), f2b(D[L][r][c].imag)] for c in range(2)] for r in range(2)] for L in "XYZ"}
@@ -350,42 +494,63 @@ def one_case(ctx, case):
             v, vp = space[ctx.rng.randrange(len(space))], space[ctx.rng.randrange(len(space))]
             mm = ctx.driver.call("c03.dm_aux", n=n, h=h, a=a, am=qc.pbits(am), ph=qc.pbits(ph), v=bits(v), vp=bits(vp))
             vt, vpt = torch.tensor(v, dtype=torch.double), torch.tensor(vp, dtype=torch.double)
-            gg = st.rbm_am.gamma_grad(vt, vpt, eta=+1, expand=False).numpy()
+            gg = gamma_grad_form(st.rbm_am, A, vt, vpt, +1, False).numpy()
             ctx.point("gamma_grad(+1)", "aux", gg[0], unbits(mm["gamma_grad_plus"]), case, scale=scale)
-            gg = st.rbm_ph.gamma_grad(vt, vpt, eta=-1, expand=False).numpy()
+            gg = gamma_grad_form(st.rbm_ph, A, vt, vpt, -1, False).numpy()
             ctx.point("gamma_grad(-1)", "aux", gg[0], unbits(mm["gamma_grad_minus"]), case, scale=scale)
-            pg = st.pi_grad(vt.unsqueeze(0), vpt.unsqueeze(0), phase=False, expand=True).numpy()
+            if A.aseed is not None:
+                # the branch training takes (expand true), batch of one: the same vector as the single entry [0, 0]
+                gg = gamma_grad_form(st.rbm_am, A, vt.unsqueeze(0), vpt.unsqueeze(0), +1, True).numpy()
+                ctx.point("gamma_grad(+1, expand=<true object>) batch of one", "aux", gg[0].ravel(), unbits(mm["gamma_grad_plus"]), case, scale=scale)
+                gg = gamma_grad_form(st.rbm_ph, A, vt.unsqueeze(0), vpt.unsqueeze(0), -1, True).numpy()
+                ctx.point("gamma_grad(-1, expand=<true object>) batch of one", "aux", gg[0].ravel(), unbits(mm["gamma_grad_minus"]), case, scale=scale)
+            pg = pi_grad_form(st, A, vt.unsqueeze(0), vpt.unsqueeze(0), False, True).numpy()
             ctx.point("pi_grad(am)", "aux", np.r_[pg[0].ravel(), pg[1].ravel()], np.r_[unbits(mm["pi_grad_am"][0]), unbits(mm["pi_grad_am"][1])], case, scale=scale)
-            pg = st.pi_grad(vt.unsqueeze(0), vpt.unsqueeze(0), phase=True, expand=True).numpy()
+            pg = pi_grad_form(st, A, vt.unsqueeze(0), vpt.unsqueeze(0), True, True).numpy()
             ctx.point("pi_grad(ph)", "aux", np.r_[pg[0].ravel(), pg[1].ravel()], np.r_[unbits(mm["pi_grad_ph"][0]), unbits(mm["pi_grad_ph"][1])], case, scale=scale)
             # the DEFAULT branch expand=False (never used by training; it adds the phase network's auxiliary bias, see notes/C03.md):
             # 1-D operands, a batch of one, and the default value of the keyword
             for flag, key in ((False, "pi_grad_am_noexpand"), (True, "pi_grad_ph_noexpand")):
                 want = np.r_[unbits(mm[key][0]), unbits(mm[key][1])]
-                pg = st.pi_grad(vt, vpt, phase=flag, expand=False).numpy()
+                pg = pi_grad_form(st, A, vt, vpt, flag, False).numpy()
                 ctx.point(f"pi_grad(phase={flag}, expand=False) 1-D", "aux", np.r_[pg[0].ravel(), pg[1].ravel()], want, case, scale=scale)
-                pg = st.pi_grad(vt.unsqueeze(0), vpt.unsqueeze(0), phase=flag).numpy()
+                pg = pi_grad_form(st, A, vt.unsqueeze(0), vpt.unsqueeze(0), flag).numpy()
                 ctx.point(f"pi_grad(phase={flag}) default expand, batch of one", "aux", np.r_[pg[0].ravel(), pg[1].ravel()], want, case, scale=scale)
             ctx.count("pi_grad/expand=False:d_mu" + ("=0" if all(x == 0 for x in ph["d"]) else "!=0"))
 
 
-def fit_pairing_probe(ctx, rng, kind):
-    """a short real fit (>= 3 epochs): every row handed to compute_batch_gradients must come with ITS OWN basis in every epoch
-    (rows are made distinct so that the pairing is observable)"""
+def fit_pairing_probe(ctx, rng, kind, forms=False):
+    """a short real fit (>= 2 epochs): every row handed to compute_batch_gradients must come with ITS OWN basis in every epoch
+    (rows are made distinct so that the pairing is observable).  `forms=False`: the case of the earlier rounds (epochs=3, pos_batch_size=4,
+    k=1 as Python ints by keyword); `forms=True`: epochs / batch sizes / k drawn from `rng` and handed over in the forms of the case's
+    `aseed` stream, any positional prefix of the documented order; the case then stores everything its replay needs (parameters, torch seed)."""
     n = 3
     rows = [[(k >> (n - 1 - j)) & 1 for j in range(n)] for k in range(2 ** n)]
     rng.shuffle(rows)
     rows = rows[:6]
     strings = ["".join(rng.choice("XYZ") for _ in range(n)) for _ in rows]
     strings[0] = "Z" * n
-    pair = {tuple(r): b for r, b in zip(rows, strings)}
     case = {"kind": kind, "probe": "fit-pairing", "rows": rows, "bases": strings}
-    ctx.current_case = case
-    ctx.case(case, nontrivial=len(set(strings)) >= 3)
     if kind == "cplx":
-        st = qc.make_complex(n, 2, qc.rand_rbm_params(rng, n, 2, 0.3), qc.rand_rbm_params(rng, n, 2, 0.3))
+        am, ph = qc.rand_rbm_params(rng, n, 2, 0.3), qc.rand_rbm_params(rng, n, 2, 0.3)
     else:
-        st = qc.make_density(n, 2, 2, qc.rand_prbm_params(rng, n, 2, 2, 0.3), qc.rand_prbm_params(rng, n, 2, 2, 0.3, d_zero=rng.random() < 0.5))
+        am, ph = qc.rand_prbm_params(rng, n, 2, 2, 0.3), qc.rand_prbm_params(rng, n, 2, 2, 0.3, d_zero=rng.random() < 0.5)
+    if forms:
+        case.update(am=am, ph=ph, epochs=rng.choice([2, 3, 4]), pos_batch_size=rng.choice([1, 2, 3, 4, 5, 6, 7]),
+                    neg_batch_size=rng.choice([None, None, 2, 3, 5]), k=rng.choice([1, 1, 2]), aseed=af.draw_aseed(rng), tseed=rng.randrange(2 ** 31))
+    fit_pairing_eval(ctx, case, am, ph)
+
+
+def fit_pairing_eval(ctx, case, am, ph):
+    kind, n, rows, strings = case["kind"], 3, case["rows"], case["bases"]
+    A = af.Args(case.get("aseed"))
+    E, pbs, nbs, k = case.get("epochs", 3), case.get("pos_batch_size", 4), case.get("neg_batch_size"), case.get("k", 1)
+    pair = {tuple(r): b for r, b in zip(rows, strings)}
+    ctx.current_case = case
+    ctx.case({key: case[key] for key in ("kind", "probe", "rows", "bases")}, nontrivial=len(set(strings)) >= 3)
+    st = af.make_complex(A, n, 2, am, ph) if kind == "cplx" else af.make_density(A, n, 2, 2, am, ph)
+    if not af.check_sizes(ctx, st, (n, 2) if kind == "cplx" else (n, 2, 2), case, A, f"{kind}/fit-pairing-ctor-sizes", TH_CTOR):
+        return
     seen = []
     orig = st.compute_batch_gradients
 
@@ -395,10 +560,29 @@ def fit_pairing_probe(ctx, rng, kind):
         return orig(k, samples_batch, neg_batch, bases_batch)
 
     st.compute_batch_gradients = cbg
-    st.fit(torch.tensor(rows, dtype=torch.double), epochs=3, pos_batch_size=4, k=1, lr=0.01, input_bases=np.array([list(b) for b in strings]))
+    data_t, IB = torch.tensor(rows, dtype=torch.double), np.array([list(b) for b in strings])
+    if case.get("aseed") is None:
+        st.fit(data_t, epochs=3, pos_batch_size=4, k=1, lr=0.01, input_bases=IB)
+    else:
+        torch.manual_seed(case["tseed"])
+        vals = [("epochs", A.i(E)), ("pos_batch_size", A.i(pbs)), ("neg_batch_size", None if nbs is None else A.i(nbs)), ("k", A.i(k)),
+                ("lr", 0.01), ("input_bases", IB)]
+        npos = A.choice(range(0, 7))
+        ctx.count(f"fit/first {npos} options positional"); ctx.count(f"fit/epochs={E}"); ctx.count(f"fit/pos_batch_size={pbs}"); ctx.count(f"fit/neg_batch_size={nbs}")
+        try:  # "every public method ... is callable": a refusal of a documented integer option is a failure of THIS call form
+            st.fit(data_t, *[v for _, v in vals[:npos]], **{key: v for key, v in vals[npos:]})
+        except Exception as e:  # noqa: BLE001
+            ctx.oracle("fit accepts epochs / pos_batch_size / neg_batch_size / k as integer objects", False, case,
+                       detail={"exception": type(e).__name__, "message": str(e)[:200], "given_as": A.used(), "positional": npos},
+                       sig=f"{kind}/fit-int-forms", theorem="C07_own_basis (C03: the gradient computed for training)")
+            return
+    A.count_into(ctx)
     bad = [(r, b) for r, b in seen if pair.get(r) != b]
-    ctx.oracle("every training row is paired with its own basis in every epoch", not bad and len(seen) == 3 * len(rows), case,
-               detail={"bad": bad[:5], "seen": len(seen)}, sig=f"{kind}/fit-pairing", theorem="C07_own_basis (C03: NLL in each sample's own basis)")
+    N = len(rows)
+    every = len(seen) == E * N and all(sorted(r for r, _ in seen[e * N:(e + 1) * N]) == sorted(tuple(r) for r in rows) for e in range(E))
+    ctx.oracle("every training row is paired with its own basis in every epoch", not bad and len(seen) == E * N and every, case,
+               detail={"bad": bad[:5], "seen": len(seen), "expected": E * N, "every row once per epoch": every}, sig=f"{kind}/fit-pairing",
+               theorem="C07_own_basis (C03: NLL in each sample's own basis)")
 
 
 def history_probe(ctx, case):
@@ -413,8 +597,20 @@ def history_probe(ctx, case):
     S, B = tensors(data)
     space_t = torch.tensor(qc.all_states(n), dtype=torch.double)
     D = dict_np()
+    # the constructor arguments in the forms of a second stream derived from the case's `aseed` (None: plain, as before)
+    A = af.Args(None if case.get("aseed") is None else (int(case["aseed"]) ^ 0x5BD1E995) % (2 ** 31))
+    hcase = {**case, "history": True}
     if kind == "pos":
-        st = qc.make_positive(n, h, case["am"]); first = st.compute_exact_gradients(S, space_t)
+        st = af.make_positive(A, n, h, case["am"])
+    elif kind == "cplx":
+        st = af.make_complex(A, n, h, case["am"], case["ph"])
+    else:
+        st = af.make_density(A, n, h, a, case["am"], case["ph"])
+    if not af.check_sizes(ctx, st, (n, h, a) if kind == "dm" else (n, h), hcase, A, f"{kind}/history-ctor-sizes", TH_CTOR):
+        return
+    A.count_into(ctx)
+    if kind == "pos":
+        first = st.compute_exact_gradients(S, space_t)
         am2 = qc.rand_rbm_params(rng, n, h, 0.8); ph2 = None
         qc.set_rbm(st.rbm_am, am2, inplace=True)
         ex = [t.numpy().copy() for t in st.compute_exact_gradients(S, space_t)]
@@ -424,18 +620,17 @@ def history_probe(ctx, case):
         dict_enc = {L: [[[f2b(D[L][r][c].real), f2b(D[L][r][c].imag)] for c in range(2)] for r in range(2)] for L in "XYZ"}
         samples = [{"bits": s, "basis": b} for s, b in data]
         if kind == "cplx":
-            st = qc.make_complex(n, h, case["am"], case["ph"]); first = st.compute_exact_gradients(S, space_t, B)
+            first = st.compute_exact_gradients(S, space_t, B)
             am2 = qc.rand_rbm_params(rng, n, h, 0.8); ph2 = qc.rand_rbm_params(rng, n, h, 0.8)
             qc.set_rbm(st.rbm_am, am2, inplace=True); qc.set_rbm(st.rbm_ph, ph2, inplace=True)
             m = ctx.driver.call("c03.cplx", n=n, h=h, am=qc.pbits(am2), ph=qc.pbits(ph2), dict=dict_enc, samples=samples)
         else:
-            st = qc.make_density(n, h, a, case["am"], case["ph"]); first = st.compute_exact_gradients(S, space_t, B)
+            first = st.compute_exact_gradients(S, space_t, B)
             am2 = qc.rand_prbm_params(rng, n, h, a, 0.8); ph2 = qc.rand_prbm_params(rng, n, h, a, 0.8, d_zero=rng.random() < 0.5)
             qc.set_prbm(st.rbm_am, am2, inplace=True); qc.set_prbm(st.rbm_ph, ph2, inplace=True)
             m = ctx.driver.call("c03.dm", n=n, h=h, a=a, am=qc.pbits(am2), ph=qc.pbits(ph2), dict=dict_enc, eps=f2b(EPS), samples=samples)
         ex = [t.numpy().copy() for t in st.compute_exact_gradients(S, space_t, B)]
         model = [unbits(m["exact"][0]), unbits(m["exact"][1])]
-    hcase = {**case, "history": True}
     for i, (e, mo) in enumerate(zip(ex, model)):
         ctx.point(f"compute_exact_gradients[{i}] after in-place re-parametrisation (same objects)", "property", e, mo, hcase,
                   scale=max(1.0, float(np.max(np.abs(e)))), rtol=2e-6, atol=1e-8, sig=f"{kind}/history", theorem=TH[kind])
@@ -459,7 +654,7 @@ def gen_cases(ctx, thorough):
                 else:
                     am = qc.rand_rbm_params(rng, n, h, scale)
                     ph = qc.rand_rbm_params(rng, n, h, scale) if kind == "cplx" else None
-                plan.append({"kind": kind, "n": n, "h": h, "a": a, "am": am, "ph": ph, "data": mk_data(rng, n, N, kind)})
+                plan.append({"aseed": af.draw_aseed(rng), "kind": kind, "n": n, "h": h, "a": a, "am": am, "ph": ph, "data": mk_data(rng, n, N, kind)})
         # quick tier: one n = 4 case per kind (the quantifier's largest size)
         if not thorough:
             n, h, a = 4, rng.choice([1, 2, 3]), rng.choice([1, 2])
@@ -467,7 +662,7 @@ def gen_cases(ctx, thorough):
                 am = qc.rand_prbm_params(rng, n, h, a, 0.7); ph = qc.rand_prbm_params(rng, n, h, a, 0.7, d_zero=rng.random() < 0.5)
             else:
                 am = qc.rand_rbm_params(rng, n, h, 0.7); ph = qc.rand_rbm_params(rng, n, h, 0.7) if kind == "cplx" else None
-            plan.append({"kind": kind, "n": n, "h": h, "a": a, "am": am, "ph": ph, "data": mk_data(rng, n, 4, kind), "regime": "n=4"})
+            plan.append({"aseed": af.draw_aseed(rng), "kind": kind, "n": n, "h": h, "a": a, "am": am, "ph": ph, "data": mk_data(rng, n, 4, kind), "regime": "n=4"})
         # saturated regime: scale 3 and 10 (|pre-activations| >> 1: prob_h_given_v at its clamp, softplus in its linear branch)
         for scale in (3.0, 10.0):
             for n in ((2, 3) if not thorough else (1, 2, 3, 3)):
@@ -476,7 +671,7 @@ def gen_cases(ctx, thorough):
                     am = qc.rand_prbm_params(rng, n, h, a, scale); ph = qc.rand_prbm_params(rng, n, h, a, scale, d_zero=rng.random() < 0.5)
                 else:
                     am = qc.rand_rbm_params(rng, n, h, scale); ph = qc.rand_rbm_params(rng, n, h, scale) if kind == "cplx" else None
-                plan.append({"kind": kind, "n": n, "h": h, "a": a, "am": am, "ph": ph, "data": mk_data(rng, n, rng.randint(3, 5), kind),
+                plan.append({"aseed": af.draw_aseed(rng), "kind": kind, "n": n, "h": h, "a": a, "am": am, "ph": ph, "data": mk_data(rng, n, rng.randint(3, 5), kind),
                              "regime": f"scale={scale:g}"})
         # all-strings regime: every basis string of {X,Y,Z}^n occurs in ONE dataset (random outcomes, random row order)
         if kind != "pos":
@@ -489,7 +684,7 @@ def gen_cases(ctx, thorough):
                 strings = ["".join(t) for t in itertools.product("XYZ", repeat=n)]
                 rng.shuffle(strings)
                 data = [([rng.randint(0, 1) for _ in range(n)], b_) for b_ in strings]
-                plan.append({"kind": kind, "n": n, "h": h, "a": a, "am": am, "ph": ph, "data": data, "regime": "all-strings"})
+                plan.append({"aseed": af.draw_aseed(rng), "kind": kind, "n": n, "h": h, "a": a, "am": am, "ph": ph, "data": data, "regime": "all-strings"})
         # small-amplitude regime (|<s|U|psi>|^2 down to ~1e-12): strongly negative visible biases, outcomes with many 1s
         if kind != "pos":
             for _ in range(6 if thorough else 1):
@@ -512,7 +707,7 @@ def gen_cases(ctx, thorough):
                     jj = rng.randrange(n)
                     fixed.append(([1] * n, one_rot()) if i < 2 else (s_, b_))
                 data = fixed
-                plan.append({"kind": kind, "n": n, "h": h, "a": a, "am": am, "ph": ph, "data": data, "regime": "small-amplitude"})
+                plan.append({"aseed": af.draw_aseed(rng), "kind": kind, "n": n, "h": h, "a": a, "am": am, "ph": ph, "data": data, "regime": "small-amplitude"})
         # near-|+>^n regime: couplings, visible biases and phases ~1e-3 with O(1) hidden biases; a rotated outcome "1" is then a strongly
         # cancelling sum of amplitudes, which amplifies any loss of precision in an intermediate (e.g. a single-precision detour)
         if kind != "pos":
@@ -531,7 +726,7 @@ def gen_cases(ctx, thorough):
                     bs = "".join(rng.choice("XY") if j == jj else "Z" for j in range(n))
                     sv = [1 if j == jj else rng.randint(0, 1) for j in range(n)]
                     data.append((sv, bs))
-                plan.append({"kind": kind, "n": n, "h": h, "a": a, "am": am, "ph": ph, "data": data, "regime": "near-plus"})
+                plan.append({"aseed": af.draw_aseed(rng), "kind": kind, "n": n, "h": h, "a": a, "am": am, "ph": ph, "data": data, "regime": "near-plus"})
         # one batch with more than 256 distinct bases (group labels beyond one byte)
         if kind == "cplx":
             n = 6
@@ -539,7 +734,7 @@ def gen_cases(ctx, thorough):
             rng.shuffle(strings)
             rows = 270 if thorough else 262
             data = [([rng.randint(0, 1) for _ in range(n)], strings[i]) for i in range(rows)]
-            plan.append({"kind": kind, "n": n, "h": 1, "a": 1, "am": qc.rand_rbm_params(rng, n, 1, 0.5), "ph": qc.rand_rbm_params(rng, n, 1, 0.5),
+            plan.append({"aseed": af.draw_aseed(rng), "kind": kind, "n": n, "h": 1, "a": 1, "am": qc.rand_rbm_params(rng, n, 1, 0.5), "ph": qc.rand_rbm_params(rng, n, 1, 0.5),
                          "data": data, "regime": "many-bases", "no_fd": True})
     return plan
 
@@ -551,8 +746,8 @@ def run(ctx):
         if k_ % 2 == 0 and not case.get("regime"):
             history_probe(ctx, case)
     for kind in ("cplx", "dm"):
-        for _ in range(4 if ctx.tier == "thorough" else 1):
-            fit_pairing_probe(ctx, ctx.rng, kind)
+        for _ in range(6 if ctx.tier == "thorough" else 3):   # round 5: 3 per kind in quick (each hands 4 integer options over in the forms of its stream)
+            fit_pairing_probe(ctx, ctx.rng, kind, forms=True)
 
 
 def search(ctx):
@@ -566,8 +761,11 @@ def search(ctx):
 
 def replay(ctx, case):
     if case.get("probe") == "fit-pairing":
-        import random as _r
-        fit_pairing_probe(ctx, _r.Random(0), case["kind"])
+        if "aseed" in case:      # round 5: the case carries everything (parameters, option values, form stream, torch seed)
+            fit_pairing_eval(ctx, case, case["am"], case["ph"])
+        else:                    # cases stored before: re-created as they always were
+            import random as _r
+            fit_pairing_probe(ctx, _r.Random(0), case["kind"])
     else:
         one_case(ctx, case)
         if case.get("history"):
